@@ -21,8 +21,34 @@ CVC5 = "/usr/bin/cvc5"
 # --------------------------------------------------------------------------
 # axiom instantiation by term collection (no quantifiers reach the solver)
 # --------------------------------------------------------------------------
+_APPS_MEMO: dict = {}
+
+
 def collect_apps(formulas, names):
-    """All applications f(args) in the formulas whose decl name is in `names`."""
+    """All applications f(args) in the formulas whose decl name is in `names` (memoised per top-level formula: path conditions are re-scanned at every fork)."""
+    key_names = tuple(sorted(names))
+    out = {n: [] for n in names}
+    seen_terms = set()
+    for f in formulas:
+        if not z3.is_expr(f):
+            continue
+        k = (f.get_id(), key_names)
+        got = _APPS_MEMO.get(k)
+        if got is None:
+            got = (f, _collect_apps1([f], names))     # the formula is kept alive with its entry: ast ids are only unique among live terms
+            if len(_APPS_MEMO) > 200000:
+                _APPS_MEMO.clear()
+            _APPS_MEMO[k] = got
+        for n, ts in got[1].items():
+            for t in ts:
+                i = t.get_id()
+                if i not in seen_terms:
+                    seen_terms.add(i)
+                    out[n].append(t)
+    return out
+
+
+def _collect_apps1(formulas, names):
     out = {n: [] for n in names}
     seen = set()
     todo = list(formulas)
